@@ -43,7 +43,9 @@ def replay(path, verbose=True):
         if verbose:
             print(detail)
             traceback.print_exc()
-        if r['obligation'].startswith('unexpected-exception:' + type(e).__name__):
+        if r['obligation'].startswith('unexpected-exception:'):
+            # the real code raises where the harness expects none (the exception class may differ from the one seen
+            # under the proxies)
             return ('violation', detail)
         return ('no', detail)
     want = r['obligation']
